@@ -146,9 +146,26 @@ Section Iface.
 
   (* what the collector can reach: closures retained by a context that some variable holds or some live builder caches;
      callbacks held by the per-method mockers of live builders *)
-  Definition ctx_reachable (s : st) (c : nat) : bool :=
+  Definition ctx_reachable_direct (s : st) (c : nat) : bool :=
     existsb (fun w => match w with WFake c' => Nat.eqb c c' | _ => false end) (vars s) ||
     existsb (fun e => let '(b, _, c') := e in Nat.eqb c c' && nth b (alive s) false) (cache s).
+
+  (* a context's backup is the interface value the variable held before: when that value is itself a fabricated interface
+     (another builder had mocked the variable), its data word points at the earlier context, which stays reachable *)
+  Definition backup_points (s : st) (c' c : nat) : bool :=
+    match get_ctx s c' with
+    | Some x => match c_backup x with Some (WFake d) => Nat.eqb d c | _ => false end
+    | None => false
+    end.
+
+  Fixpoint ctx_reach (n : nat) (s : st) (c : nat) : bool :=
+    ctx_reachable_direct s c ||
+    match n with
+    | O => false
+    | S n' => existsb (fun c' => ctx_reach n' s c' && backup_points s c' c) (seq 0 (length (ctxs s)))
+    end.
+
+  Definition ctx_reachable (s : st) (c : nat) : bool := ctx_reach (length (ctxs s)) s c.
 
   Definition closure_reachable (s : st) (k : nat) : bool :=
     existsb (fun e => let '(b, _, _, k') := e in Nat.eqb k k' && nth b (alive s) false) (mimp s) ||
